@@ -158,7 +158,8 @@ CLAIMED = {
    text="PARTIAL proof (Lean 4), for EVERY fault schedule (short counts, EINTR, hard errors at any system call): in the model of src/lib/io.c, "
         "write_data reports success only if exactly the given bytes are in the file at the descriptor's offset (one retry of the remainder "
         "after a short write), and read_data returns only bytes that are in the file at the offset, in order and without gaps, leaving the "
-        "file unchanged. chunks_from_temp is modelled and corresponded. The call sites above io.c and the tools are not theorems: whole "
+        "file unchanged; chunks_from_temp reports success only if the WHOLE temp file is in the output at the offset its descriptor had "
+        "(chunks_from_temp_sound, from tempLoop_sound: failing seek, short or failing reads, short or failing writes). The call sites above io.c and the tools are not theorems: whole "
         "scenarios (read, validate good/damaged files, write with none/zstd/dictionary, copy chunks; zck, unzck -c, unzck --header) are run "
         "with the k-th read/write/lseek failing once for every k x {EIO, ENOSPC, EINTR, short count} and judged against the fault-free result.",
    design_ref="DESIGN.md section 7 C12",
